@@ -47,6 +47,9 @@ pub struct Graph {
     pub two_modules: bool,
     /// the fields (enumerators) of every node are written in the reverse order of their targets
     pub reverse: bool,
+    /// the nodes are defined in reverse index order (the first-defined member of a cycle is then
+    /// not the one with the smallest name)
+    pub rev_defs: bool,
 }
 
 fn wrap(target: &str, wrapper: usize, aliases: &mut Vec<DefM>, two_modules: bool) -> TypeM {
@@ -169,6 +172,22 @@ pub fn graph_program(g: &Graph) -> (Program, BTreeMap<String, (usize, usize)>) {
             }));
         }
     }
+    if g.rev_defs {
+        // reverse the definitions of every file and re-key the recorded field paths
+        let counts: Vec<usize> = file_defs.iter().map(|d| d.len()).collect();
+        for d in file_defs.iter_mut() {
+            d.reverse();
+        }
+        let rekey = |path: &str| -> String {
+            let segs: Vec<&str> = path.split('/').collect();
+            let fi: usize = segs[0][1..].parse().unwrap();
+            let di: usize = segs[1][1..].parse().unwrap();
+            let mut out = vec![segs[0].to_owned(), format!("d{}", counts[fi] - 1 - di)];
+            out.extend(segs[2..].iter().map(|s| s.to_string()));
+            out.join("/")
+        };
+        fields_of = fields_of.into_iter().map(|(k, v)| (rekey(&k), v)).collect();
+    }
     file_defs[0].extend(aliases);
     let p = Program {
         files: file_defs
@@ -190,10 +209,16 @@ pub fn graph_program(g: &Graph) -> (Program, BTreeMap<String, (usize, usize)>) {
 
 /// Path of node `i` in the program of `g` (`f<file>/d<index in the file>`).
 pub fn node_path(g: &Graph, i: usize) -> String {
-    if g.two_modules {
-        format!("f{}/d{}", i % 2, i / 2)
+    let (fi, di, count) = if g.two_modules {
+        // nodes i with i % 2 == fi live in file fi
+        (i % 2, i / 2, (g.n + 1 - i % 2) / 2)
     } else {
-        format!("f0/d{i}")
+        (0, i, g.n)
+    };
+    if g.rev_defs {
+        format!("f{fi}/d{}", count - 1 - di)
+    } else {
+        format!("f{fi}/d{di}")
     }
 }
 
@@ -356,6 +381,7 @@ pub fn small_graph(mut idx: u64) -> Graph {
         leaf: (0..n).map(|i| (hash64(&("leaf", idx0, i)) % 4) as u8).collect(),
         two_modules: n >= 2 && hash64(&("two-modules", idx0)) % 2 == 1,
         reverse: hash64(&("reverse", idx0)) % 2 == 1,
+        rev_defs: hash64(&("rev-defs", idx0)) % 2 == 1,
     }
 }
 
@@ -382,6 +408,7 @@ fn graph4(idx: u64) -> Graph {
         leaf: (0..4).map(|i| (hash64(&("leaf4", idx, i)) % 4) as u8).collect(),
         two_modules: hash64(&("two-modules4", idx)) % 2 == 1,
         reverse: hash64(&("reverse4", idx)) % 2 == 1,
+        rev_defs: hash64(&("rev-defs4", idx)) % 2 == 1,
     }
 }
 
@@ -403,6 +430,7 @@ fn random_graph(u: &mut Unstructured) -> Graph {
         leaf: (0..n).map(|_| pick(u, 4) as u8).collect(),
         two_modules: pick(u, 2) == 1,
         reverse: pick(u, 2) == 1,
+        rev_defs: pick(u, 2) == 1,
     }
 }
 
@@ -664,7 +692,7 @@ impl Check for C05 {
             Family::bytes("random", 96, tier.pick(1_500, 40_000), move |cx, i| {
                 let mut u = Unstructured::new(i.bytes());
                 let g = random_graph(&mut u);
-                cx.set_key(&(g.n, &g.is_enum, &g.edges, &g.leaf, g.two_modules, g.reverse));
+                cx.set_key(&(g.n, &g.is_enum, &g.edges, &g.leaf, g.two_modules, g.reverse, g.rev_defs));
                 graph_case(cx, g)
             }),
             Family::enumerate("aliases", ALIAS_TOTAL, tier.pick(17, 1), alias_case),
